@@ -1047,4 +1047,150 @@ def check_C08(run):
                         "lexical 7.0.2 parse_partial is modelled (Model/Numeric.v) and compared with the crate on every input; a difference on a float payload is a C08 violation of the implementation because the model side is proved"]
 
 
-CHECKS = {"C08": check_C08, "C15": check_C15, "C11": check_C11, "C01": check_C01, "C04": check_C04, "C06": check_C06, "C07": check_C07, "C12": check_C12, "C13": check_C13, "C14": check_C14, "C10": check_C10, "C16": check_C16, "C17": check_C17, "C18": check_C18, "C09": check_C09, "C05": check_C05, "C03": check_C03, "C02": check_C02, "C19": check_C19}
+def check_C20(run):
+    import pybind, grammar, subprocess, concurrent.futures as cf
+    from common import NCPU
+    rng = Rng(run.seed).fork("C20")
+    info = coq_part(run, "C20")
+    if info and isinstance(info.get("gen"), dict):
+        run.cov["wire_sources"] = info["gen"].get("wire")
+    try:
+        exe = coqbuild.build_model()
+    except CoqFailure as e:
+        exe = None
+        run.pending_break = ("model-build", e.detail[:600])
+    b = pybind.Binding()
+    try:
+        ok = b.build()
+        if not ok:
+            run.cov["binding_build_log"] = b.build_log[-800:]
+            run.violation("binding-build", "the extension module does not build from the working tree: " + b.build_log[-300:], src=None, found_input=False)
+            settle_break(run)
+            return
+        run.cov["enum_modules_regenerated_identical"] = not b.enum_diff
+        for d in b.enum_diff[:3]:
+            run.violation("enums", "a committed Python enum module is not what the build script generates from the linked crate: " + d, src=d)
+        try:
+            tn, en = pybind.py_names()
+            enums = pybind.py_enums()
+        except Exception as ex:
+            run.violation("python-sources", f"cannot read the Python classes: {ex}", src=None, found_input=False)
+            settle_break(run)
+            return
+        n = tier_n(run, 4000, 80000)
+        wf_progs = [grammar.render(p)[0] for p in grammar_programs(run, rng, n // 2, 3)]
+        wf_progs += gen.sample_files()
+        arb = gen.regression_corpus() + gen.fragments(rng.fork("f"), n, 7) + gen.open_code(rng.fork("o"), n // 2, 8) + gen.unicode_stress(rng.fork("u"), n // 3)
+        arb += gen.lexeme_stream(rng.fork("lx"), n // 2) + gen.numeric_stream(rng.fork("num"), n // 4) + gen.escape_stream(rng.fork("esc"), n // 4)
+        t_ = gen.test_strings()
+        r2 = rng.fork("t")
+        arb += [t_[r2.below(len(t_))] for _ in range(min(len(t_), n // 4))]
+        arb += ["\ufeff" + s_ for s_ in arb[:: 17]]
+        ins = [(s_, True) for s_ in wf_progs] + [(s_, False) for s_ in dict.fromkeys(arb)]
+        k = min(NCPU, max(1, len(ins) // 300))
+        size = (len(ins) + k - 1) // k
+        chunks = [ins[i:i + size] for i in range(0, len(ins), size)]
+        with cf.ThreadPoolExecutor(max_workers=k) as ex:
+            results = [r for part in ex.map(lambda ch: b.call([s_ for s_, _ in ch]), chunks) for r in part]
+        outcomes = collections.Counter()
+        wire_lines = []
+        wire_owner = []
+        nbad = 0
+        decoded = {}
+        for idx, ((src, is_wf), (kind, val)) in enumerate(zip(ins, results)):
+            outcomes[("wf:" if is_wf else "arb:") + kind] += 1
+            if kind != "ok":
+                if is_wf:
+                    kf = run.known_class(src, f"binding does not return on a well-formed program ({kind} {val})")
+                    if kf:
+                        run.known_hits[kf["id"]] = kf["text"]
+                    else:
+                        run.violation("returns", f"the binding does not return a result on a well-formed program: {kind} {val}", src=src)
+                continue
+            try:
+                toks, errs, lit = pybind.decode_result(val, tn, en)
+            except pybind.WireError as ex:
+                run.violation("wire", f"the returned bytes do not decode positionally into Token/Error: {ex}", src=src, extra={"bytes": val.hex()[:2000]})
+                continue
+            decoded[idx] = (toks, errs, lit)
+            wire_lines.append(val.hex())
+            wire_owner.append(idx)
+            f = pybind.contract(src, toks, errs, lit, enums)
+            if f:
+                msg = f"Python-level contract: {f[0]}"
+                kf = run.known_class(src, msg)
+                if kf:
+                    run.known_hits[kf["id"]] = kf["text"]
+                    run.cov["known_finding_instances"] = run.cov.get("known_finding_instances", 0) + 1
+                    continue
+                nbad += 1
+                if nbad <= 4:
+                    def still(x):
+                        r_ = b.call([x])
+                        if not r_ or r_[0][0] != "ok":
+                            return False
+                        try:
+                            d = pybind.decode_result(r_[0][1], tn, en)
+                        except pybind.WireError:
+                            return True
+                        ff = pybind.contract(x, d[0], d[1], d[2], enums)
+                        return bool(ff) and not run.known_class(x, f"Python-level contract: {ff[0]}")
+                    small = shrink_input(src, still)
+                    r_ = b.call([small])
+                    try:
+                        d = pybind.decode_result(r_[0][1], tn, en)
+                        ff = pybind.contract(small, d[0], d[1], d[2], enums)
+                        msg = f"Python-level contract: {ff[0]}" if ff else msg
+                    except Exception:
+                        pass
+                    run.violation("contract", msg, src=small, extra={"original": src[:400]})
+        run.count("binding", len(ins))
+        run.cov["streams"]["binding"]["outcomes"] = dict(outcomes)
+        run.cov["streams"]["binding"]["contract_failures"] = nbad
+        # the Coq reader/writer on the real bytes
+        if exe is not None and wire_lines:
+            def wire_chunk(lines):
+                p_ = subprocess.run([exe, "wire"], input=("tok " + ",".join(tn) + " err " + ",".join(en) + "\n" + "\n".join(lines) + "\n").encode(), capture_output=True, timeout=1800)
+                return p_.stdout.decode()
+            kk = min(NCPU, max(1, len(wire_lines) // 200))
+            sz = (len(wire_lines) + kk - 1) // kk
+            parts = [wire_lines[i:i + sz] for i in range(0, len(wire_lines), sz)]
+            with cf.ThreadPoolExecutor(max_workers=kk) as ex:
+                texts = list(ex.map(wire_chunk, parts))
+            blocks = [blk for t_ in texts for blk in t_.split("CASE ")[1:]]
+            same = 0
+            diffs = 0
+            for blk, idx in zip(blocks, wire_owner):
+                lines = blk.split("\n")
+                toks, errs, lit = decoded[idx]
+                want = ["PT " + " ".join(f"{k_}={pybind.canon(t[k_])}" for k_ in tn) for t in toks]
+                want += ["PE " + " ".join(f"{k_}={pybind.canon(e[k_])}" for k_ in en) for e in errs]
+                want += ["PLIT " + lit.hex()]
+                got = [l for l in lines[1:] if l.startswith(("PT ", "PE ", "PLIT"))]
+                w = next((l for l in lines if l.startswith("WIRE ")), "WIRE missing")
+                if w == "WIRE same" and got == want:
+                    same += 1
+                else:
+                    diffs += 1
+                    if not getattr(run, "pending_break", None):
+                        run.pending_break = ("correspondence", f"the Coq wire model and the binding differ on input {ins[idx][0][:100]!r}: {w[:200]}; python view equal: {got == want}")
+            if len(blocks) != len(wire_owner):
+                run.pending_break = getattr(run, "pending_break", None) or ("correspondence", "the extracted wire reader stopped early")
+            run.cov["wire_model"] = {"messages": len(wire_owner), "reencoded_identically_and_same_python_view": same, "differences": diffs}
+            run.cov["traces_validated_against_impl"] = same
+            run.cov["disagreements_checked"] = diffs
+        run.sample({"source": ins[0][0][:200]})
+        run.sample({"source": ins[len(ins) // 2][0][:200]})
+        run.cov["rule"] = ("extension module built (release) from a scratch copy of /repo's working tree, called through python3; inputs: rendered grammar programs and sample files "
+                           "(must return), corpus, fragment/open-code/Unicode/lexeme/numeric/escape streams, test-suite strings, BOM-prefixed variants (contract whenever a result is returned); "
+                           "bytes read with an independent MessagePack reader through the attribute order parsed from token.py/error.py, judged by the Python-level contract, and "
+                           "read/re-written by the extracted Coq reader/writer (byte-identical re-encoding, same attribute view)")
+        run.assumptions += ["the lexer inside the binding is the published registry crate named in sas-lexer-py/Cargo.toml (not the workspace crate): its tokenization is not modelled; panics inside it are outside the property; hangs/panics on arbitrary strings are counted, not reported",
+                            "msgspec itself is not run (not installed offline): its array_like positional decoding is modelled by py_struct and by the independent reader",
+                            "proved: MessagePack round trip for all values, positional binding of attributes to fields, field lists and enum tables generated from both sides agree"]
+    finally:
+        b.close()
+    settle_break(run)
+
+
+CHECKS = {"C20": check_C20, "C08": check_C08, "C15": check_C15, "C11": check_C11, "C01": check_C01, "C04": check_C04, "C06": check_C06, "C07": check_C07, "C12": check_C12, "C13": check_C13, "C14": check_C14, "C10": check_C10, "C16": check_C16, "C17": check_C17, "C18": check_C18, "C09": check_C09, "C05": check_C05, "C03": check_C03, "C02": check_C02, "C19": check_C19}
